@@ -2,11 +2,13 @@ package wk
 
 import (
 	"bytes"
+	"crypto/sha1"
 	"encoding/json"
 	"fmt"
 	"net/http"
 	"net/http/httptest"
 	"os"
+	"runtime"
 	"strings"
 	"syscall"
 	"time"
@@ -109,6 +111,9 @@ func Do(method, url string, body []byte, hdr map[string]string) Resp {
 	if err != nil {
 		return Resp{Status: -1, Body: []byte(err.Error())}
 	}
+	if r.Body == nil {
+		r.Body = http.NoBody // a real net/http server never hands a handler a nil Body
+	}
 	for k, v := range hdr {
 		r.Header.Set(k, v)
 	}
@@ -117,7 +122,13 @@ func Do(method, url string, body []byte, hdr map[string]string) Resp {
 	t0 := Mono()
 	server.ServeSingleHTTP(w, r)
 	t1 := Mono()
-	return Resp{Status: w.Code, Body: w.Body.Bytes(), CT: w.Header().Get("Content-Type"), T0: t0, T1: t1}
+	out := w.Body.Bytes()
+	if len(out) > 16<<20 {
+		// no oracle needs the bytes of a response this large: send its length and digest instead
+		h := sha1.Sum(out)
+		out = []byte(fmt.Sprintf("TRUNCATED-BY-WORKER len=%d sha1=%x", len(out), h[:8]))
+	}
+	return Resp{Status: w.Code, Body: out, CT: w.Header().Get("Content-Type"), T0: t0, T1: t1}
 }
 
 type syncPender interface{ SyncPending() bool }
@@ -152,7 +163,80 @@ func AllData() ([]datastore.DataService, error) {
 	return out, nil
 }
 
+var stackBuf = make([]byte, 1<<20)
+
+// blockedSince remembers, per goroutine id, since when it has been seen parked in the same blocked state
+// inside labelmap / downres code.  A goroutine parked unchanged for longer than leakAfter is treated as
+// leaked (e.g. a producer left behind by a request that failed), not as pending work.
+var blockedSince = map[string]time.Time{}
+
+const leakAfter = 1500 * time.Millisecond
+
+// workFrames reports whether some goroutine is doing (or about to do) labelmap / downres work.
+func workFrames(dump string) string {
+	now := time.Now()
+	seen := map[string]bool{}
+	busy := ""
+	for _, g := range strings.Split(dump, "\n\n") {
+		lines := strings.Split(g, "\n")
+		if len(lines) == 0 || !strings.HasPrefix(lines[0], "goroutine ") {
+			continue
+		}
+		fn := ""
+		for _, line := range lines[1:] {
+			if strings.HasPrefix(line, "\t") || strings.HasPrefix(line, "created by ") {
+				continue
+			}
+			if strings.Contains(line, "dvid/datatype/labelmap.") || strings.Contains(line, "dvid/datatype/common/downres.") {
+				fn = line
+				break
+			}
+		}
+		if fn == "" {
+			continue
+		}
+		hdr := lines[0] // goroutine 123 [chan receive, 2 minutes]:
+		state := hdr
+		if i := strings.Index(hdr, "["); i >= 0 {
+			state = strings.TrimSuffix(strings.TrimSpace(hdr[i+1:]), "]:")
+		}
+		id := strings.Fields(hdr)[1]
+		blocked := strings.HasPrefix(state, "chan ") || strings.HasPrefix(state, "select") || strings.HasPrefix(state, "sync.") || strings.HasPrefix(state, "semacquire")
+		if !blocked {
+			busy = fn
+			continue
+		}
+		key := id + "|" + strings.SplitN(state, ",", 2)[0] + "|" + lines[1]
+		seen[key] = true
+		t0, ok := blockedSince[key]
+		if !ok {
+			blockedSince[key] = now
+			busy = fn
+		} else if now.Sub(t0) < leakAfter {
+			busy = fn
+		}
+	}
+	for k := range blockedSince {
+		if !seen[k] {
+			delete(blockedSince, k)
+		}
+	}
+	return busy
+}
+
 func busy() (bool, string) {
+	// POST raw / blocks acknowledge before their index-aggregation goroutines finish, and those raise none
+	// of the flags below: a goroutine still executing labelmap / downres code means "not idle" as well.
+	for {
+		n := runtime.Stack(stackBuf, true)
+		if n < len(stackBuf) {
+			if who := workFrames(string(stackBuf[:n])); who != "" {
+				return true, "goroutine in " + strings.TrimSpace(who)
+			}
+			break
+		}
+		stackBuf = make([]byte, 2*len(stackBuf))
+	}
 	ds, err := AllData()
 	if err != nil {
 		return false, ""
